@@ -137,8 +137,10 @@ pub fn run_scenario(events: &[&str]) -> Obs {
 
 /// the property monitors evaluated on what the implementation did (C01, C08, C09, C16)
 pub fn monitor(o: &Obs, events: &[&str]) -> Result<(), String> {
-    if let Some(p) = &o.panicked { return Err(format!("C08/C11: polling the topic panicked: {p}")); }
+    if let Some(p) = &o.panicked { return Err(format!("C01/C03/C08/C09/C11/C16: polling the topic panicked: {p}")); }
     let n = o.got.len();
+    // a delivery fault is a fault of C01 and, end to end, of C03; with a failed peer in the scenario also of C08
+    let c01 = if o.failed.iter().any(|f| *f) { "C01/C03/C08" } else { "C01/C03" };
     // position of each accepted item (scenario items are distinct)
     for k in 0..n {
         // C08: only a sink that failed is dropped
@@ -147,9 +149,9 @@ pub fn monitor(o: &Obs, events: &[&str]) -> Result<(), String> {
         // C01: what a sink got is one contiguous run of the accepted sequence, in order, nothing twice
         let g = &o.got[k];
         if g.is_empty() { continue; }
-        let pos = match o.accepted.iter().position(|x| *x == g[0]) { Some(p) => p, None => return Err(format!("C01: sink k{k} got {} which no publisher stream yielded", g[0])) };
+        let pos = match o.accepted.iter().position(|x| *x == g[0]) { Some(p) => p, None => return Err(format!("{c01}: sink k{k} got {} which no publisher stream yielded", g[0])) };
         if pos + g.len() > o.accepted.len() || o.accepted[pos..pos + g.len()] != g[..] {
-            return Err(format!("C01: sink k{k} got {:?}, not a contiguous run of the accepted sequence {:?}", g, o.accepted));
+            return Err(format!("{c01}: sink k{k} got {:?}, not a contiguous run of the accepted sequence {:?}", g, o.accepted));
         }
         // (where the run starts - "from the point its registration was processed" - is decided inside the
         // router and is not observable from outside; it is checked exactly by the model comparison and proved
@@ -163,10 +165,10 @@ pub fn monitor(o: &Obs, events: &[&str]) -> Result<(), String> {
             if o.failed[k] || o.adopt_by[k] == usize::MAX { continue; }
             let state = if o.done { "finished" } else { "asleep without a child's waker" };
             if !o.got[k].is_empty() && o.accepted.last() != o.got[k].last() {
-                return Err(format!("C01/C09/C16: topic is {state} but the last accepted item was not handed to sink k{k}"));
+                return Err(format!("{c01}/C09/C16: topic is {state} but the last accepted item was not handed to sink k{k}"));
             }
             if o.flushed[k] != o.got[k].len() {
-                return Err(format!("C01/C09/C16: topic is {} but sink k{k} has {} items handed over and only {} flushed", if o.done { "finished" } else { "asleep without a child's waker" }, o.got[k].len(), o.flushed[k]));
+                return Err(format!("{c01}/C09/C16: topic is {} but sink k{k} has {} items handed over and only {} flushed", if o.done { "finished" } else { "asleep without a child's waker" }, o.got[k].len(), o.flushed[k]));
             }
         }
     }
@@ -325,7 +327,7 @@ pub fn run(cfg: &Cfg) {
                 let mon = match j["mon"].as_str() { Some("ok") => Ok(()), Some(w) => Err(w.to_string()), None => Err("?".into()) };
                 out.case(j["case"].as_str().unwrap(), j["line"].as_str().unwrap(), mon);
             }
-            crate::childrun::Outcome::Hang => { hangs += 1; out.stat("impl_hung"); out.case(c, "HANG", Err("C09: a poll of the pub/sub router never returned (it loops without yielding)".into())); }
+            crate::childrun::Outcome::Hang => { hangs += 1; out.stat("impl_hung"); out.case(c, "HANG", Err("C09/C16: a poll of the pub/sub router never returned (it loops without yielding)".into())); }
             crate::childrun::Outcome::Panic(p) => out.case(c, "HARNESS-PANIC", Err(format!("harness panicked: {p}"))),
             crate::childrun::Outcome::Abort(a) => out.case(c, "ABORT", Err(format!("process aborted: {a}"))),
         }
